@@ -13,9 +13,14 @@ let zi (i : int) : z = z_of_za (ZA.of_int i)
 let iz (x : z) : int = ZA.to_int (za_of_z x)
 
 let tab : z list ref = ref []
+(* repair flags of the tree under test, chosen by the check's probes: C17_MODEL_FLAGS = "<fixr><fixrc><fxc>" *)
+let (fixr, fixrc, fxc) =
+  match Sys.getenv_opt "C17_MODEL_FLAGS" with
+  | Some f when String.length f >= 3 -> (f.[0] = '1', f.[1] = '1', f.[2] = '1')
+  | _ -> (false, false, false)
 
 let defect_code = function
-  | DDoubleDec -> 1 | DWrap -> 2 | DNullCnt -> 3 | DNoCopyPsz -> 4 | DStale -> 5 | DSelfLog -> 6 | DDangling -> 7
+  | DDoubleDec -> 1 | DWrap -> 2 | DNullCnt -> 3 | DNoCopyPsz -> 4 | DStale -> 5 | DSelfLog -> 6 | DDangling -> 7 | DOutOfRange -> 8
 
 let parse_fx s = { fx_realloc = s.[0] = '1'; fx_nocopy = s.[1] = '1'; fx_selflog = s.[2] = '1' }
 
@@ -50,7 +55,11 @@ let observe (addr : bool) (s : state) (c : cstate) (nh : int) : int list =
   for i = 0 to nh - 1 do
     let h = geth s (ni i) in
     push (iofn h.h_size); push (iofn h.h_psz);
-    (match h.h_cnt with None -> push 0; push 0 | Some _ -> push 1; push (iz (counter s (ni i))));
+    (match h.h_cnt, get_counter fxc s (ni i) with
+     | None, None -> push 0; push 0                      (* getCounter() has no value on an empty array (body as it is): not called *)
+     | None, Some v -> push 0; push (iz v)
+     | Some _, Some v -> push 1; push (iz v)
+     | Some _, None -> push 1; push (-999));
     if addr then begin
       (match h.h_d with None -> push (-1) | Some d -> push (iofn (get O c.c_data d)));
       (match h.h_cnt with None -> push (-1) | Some d -> push (iofn (get O c.c_cnt d)))
@@ -65,7 +74,9 @@ let show_obs (addr : bool) (s : state) (c : cstate) (nh : int) : string =
   for i = 0 to nh - 1 do
     let h = geth s (ni i) in
     Buffer.add_string b (Printf.sprintf "h%d:%d,%d,%s," i (iofn h.h_size) (iofn h.h_psz)
-      (match h.h_cnt with None -> "-" | Some _ -> string_of_int (iz (counter s (ni i)))));
+      (match h.h_cnt, get_counter fxc s (ni i) with
+       | None, None -> "-" | None, Some v -> if iz v = 0 then "-" else "!" ^ string_of_int (iz v)
+       | Some _, Some v -> string_of_int (iz v) | Some _, None -> "?"));
     if addr then
       Buffer.add_string b (Printf.sprintf "%s,%s"
         (match h.h_d with None -> "-" | Some d -> string_of_int (iofn (get O c.c_data d)))
@@ -97,6 +108,7 @@ let exec fx elsize nh (ops : op list) : (int * int) option * state =
     | [] -> (None, s)
     | o :: rest ->
       (match cstep fx !tab elsize (s, !pool) o with
+       | (_, Some DOutOfRange) -> go s (k + 1) rest        (* outside the documented precondition i < size: skipped on both sides *)
        | (_, Some d) -> (Some (k, defect_code d), s)      (* the defective call is not executed *)
        | ((s1, c1), None) -> pool := c1; go s1 (k + 1) rest) in
   go (init (ni nh)) 0 ops
@@ -108,6 +120,7 @@ let cmd_seq fx elsize addr nh (toks : string list) : string =
     | [] -> s
     | o :: rest ->
       (match cstep fx !tab elsize (s, !pool) o with
+       | (_, Some DOutOfRange) -> Buffer.add_string b ("| " ^ show_obs addr s !pool nh); go s (k + 1) rest
        | (_, Some d) -> Buffer.add_string b (Printf.sprintf "| df=%d " (defect_code d)); s
        | ((s1, c1), None) ->
          pool := c1;
@@ -182,6 +195,7 @@ let cmd_enum fx elsize addr nh sizes lmax (prefix : string list) : string =
 
 (* allocator-level sequences: the machine Model.pstep (slots are append-only; the pool persists across sequences) *)
 let apool : astate ref = ref ainit
+let slot_of (k : int) : nat = if k < 0 then ni 5000 else ni k       (* -1: a slot that does not exist = the null pointer *)
 let cmd_alloc fixed0 (toks : string list) : string =
   let st = ref { p_a = !apool; p_slots = [] } in
   let b = Buffer.create 256 in
@@ -192,15 +206,15 @@ let cmd_alloc fixed0 (toks : string list) : string =
     let args = List.map int_of_string (String.split_on_char ',' (String.sub t 1 (String.length t - 1))) in
     match t.[0], args with
     | 'a', [sz] ->
-      let ((s1, p), d) = pstep fixed0 !tab !st (PAlloc (zi sz)) in
+      let ((s1, p), d) = pstep fixed0 fixr !tab !st (PAlloc (zi sz)) in
       st := s1;
       Buffer.add_string b (Printf.sprintf "%s%s " (match d with Some _ -> "x" | None -> show_p s1.p_a p) (show_df d))
     | 'f', [k] ->
-      let ((s1, _), d) = pstep fixed0 !tab !st (PFree (ni k)) in
+      let ((s1, _), d) = pstep fixed0 fixr !tab !st (PFree (slot_of k)) in
       st := s1;
       Buffer.add_string b (Printf.sprintf "f%s " (show_df d))
     | 'r', [k; o; n] ->
-      let ((s1, p), d) = pstep fixed0 !tab !st (PResize (ni k, zi o, zi n)) in
+      let ((s1, p), d) = pstep fixed0 fixr !tab !st (PResize (slot_of k, zi o, zi n)) in
       st := s1;
       Buffer.add_string b (Printf.sprintf "%s%s " (show_p s1.p_a p) (show_df d))
     | _ -> failwith ("bad alloc op " ^ t)) toks;
@@ -208,9 +222,9 @@ let cmd_alloc fixed0 (toks : string list) : string =
   let pops = List.map (fun t ->
     let args = List.map int_of_string (String.split_on_char ',' (String.sub t 1 (String.length t - 1))) in
     match t.[0], args with
-    | 'a', [sz] -> PAlloc (zi sz) | 'f', [k] -> PFree (ni k) | 'r', [k; o; n] -> PResize (ni k, zi o, zi n)
+    | 'a', [sz] -> PAlloc (zi sz) | 'f', [k] -> PFree (slot_of k) | 'r', [k; o; n] -> PResize (slot_of k, zi o, zi n)
     | _ -> failwith ("bad alloc op " ^ t)) toks in
-  let st2 = prun fixed0 !tab { p_a = !apool; p_slots = [] } pops in
+  let st2 = prun fixed0 fixr !tab { p_a = !apool; p_slots = [] } pops in
   if st2.p_slots <> !st.p_slots then Buffer.add_string b "PRUN-DIFFERS ";
   apool := st2.p_a;
   (* free-list population of every class that is non-empty *)
@@ -231,16 +245,31 @@ let parse_rtok (t : string) : rtok =
   | [i] -> { rk = t.[0]; ri = i; ra = 0 }
   | [i; a] -> { rk = t.[0]; ri = i; ra = a }
   | _ -> failwith ("bad rc op " ^ t)
-(* usz: the size each variable's owner believes its block has (the harness keeps the same bookkeeping) *)
-let rop_of (usz : int array) (o : rtok) : rop =
-  match o.rk with
-  | 'n' -> let r = QNew (ni o.ri, zi o.ra) in usz.(o.ri) <- o.ra; r
-  | 's' -> usz.(o.ri) <- usz.(o.ra); QAssign (ni o.ri, ni o.ra)
-  | 'z' -> usz.(o.ri) <- 0; QAssignNull (ni o.ri)
-  | 'f' -> usz.(o.ri) <- 0; QFree (ni o.ri)
-  | 'r' -> let old = usz.(o.ri) in usz.(o.ri) <- o.ra; QResize (ni o.ri, zi old, zi o.ra)
-  | 'p' -> QProbe (ni o.ri)
-  | _ -> failwith "bad rc op"
+(* usz: the size each variable's owner believes its block has (the harness keeps the same bookkeeping).
+   A request no size class holds (Model.rstep_df <> None) leaves the bookkeeping as it was.  `Cut`: resize of a live pointer to such a
+   size with the body as it is (fixrc = false: released before the GivError, finding refused-size): not executed on either side. *)
+type rexec = Cut | Done of z list
+let rstep_tok (usz : int array) (o : rtok) : rexec =
+  let op = match o.rk with
+    | 'n' -> QNew (ni o.ri, zi o.ra)
+    | 's' -> QAssign (ni o.ri, ni o.ra)
+    | 'z' -> QAssignNull (ni o.ri)
+    | 'f' -> QFree (ni o.ri)
+    | 'r' -> QResize (ni o.ri, zi usz.(o.ri), zi o.ra)
+    | 'p' -> QProbe (ni o.ri)
+    | _ -> failwith "bad rc op" in
+  let refused = rstep_df fixrc !tab !rpool op <> None in
+  if refused && o.rk = 'r' && not fixrc && getq !rpool (ni o.ri) <> None then Cut
+  else begin
+    let (r, pr) = rstep fixrc !tab !rpool op in
+    rpool := r;
+    (match o.rk with
+     | 'n' | 'r' -> if not refused then usz.(o.ri) <- o.ra
+     | 's' -> usz.(o.ri) <- usz.(o.ra)
+     | 'z' | 'f' -> usz.(o.ri) <- 0
+     | _ -> ());
+    Done pr
+  end
 let rcompact () =
   let r = !rpool in
   rpool := { r with rs_a = { r.rs_a with a_free = compact r.rs_a.a_free; a_cls = compact r.rs_a.a_cls }; rs_cnt = compact r.rs_cnt }
@@ -261,13 +290,14 @@ let rshow (r : rstate) (probe : z list) : string =
   if probe <> [] then Buffer.add_string b ("probe=" ^ String.concat "," (List.map (fun x -> string_of_int (iz x)) probe) ^ " ");
   Buffer.contents b
 let rcleanup () =
-  for i = 0 to nqv - 1 do rpool := fst (rstep !tab !rpool (QFree (ni i))) done; rcompact ()
+  for i = 0 to nqv - 1 do rpool := fst (rstep fixrc !tab !rpool (QFree (ni i))) done; rcompact ()
 let cmd_rcq (toks : string list) : string =
   let usz = Array.make nqv 0 in
   let b = Buffer.create 256 in
-  List.iter (fun t ->
-    let (r, pr) = rstep !tab !rpool (rop_of usz (parse_rtok t)) in
-    rpool := r; Buffer.add_string b ("| " ^ rshow r pr)) toks;
+  (try List.iter (fun t ->
+    match rstep_tok usz (parse_rtok t) with
+    | Cut -> Buffer.add_string b "| df=refused "; raise Exit
+    | Done pr -> Buffer.add_string b ("| " ^ rshow !rpool pr)) toks with Exit -> ());
   rcleanup (); Buffer.contents b
 let ralphabet (sizes : int list) : rtok list =
   let l = ref [] in
@@ -287,11 +317,15 @@ let cmd_rcenum sizes lmax (prefix : string list) : string =
     nodes := !nodes + 1;
     let usz = Array.make nqv 0 in
     let probe = ref [] in
-    List.iter (fun o -> let (r, pr) = rstep !tab !rpool (rop_of usz o) in rpool := r; probe := pr) (List.rev seq);
-    List.iter mix (robs !rpool);
-    (match !probe with [] -> () | pr -> String.iter (fun c -> mix (Char.code c)) (String.concat "," (List.map (fun x -> string_of_int (iz x)) pr)));
-    rcleanup ();
-    if len < lmax then List.iter (fun a -> visit (a :: seq) (len + 1)) alpha in
+    let cut = ref false in
+    (try List.iter (fun o -> match rstep_tok usz o with Cut -> cut := true; raise Exit | Done pr -> probe := pr) (List.rev seq) with Exit -> ());
+    if !cut then (mix (-200); rcleanup ())
+    else begin
+      List.iter mix (robs !rpool);
+      (match !probe with [] -> () | pr -> String.iter (fun c -> mix (Char.code c)) (String.concat "," (List.map (fun x -> string_of_int (iz x)) pr)));
+      rcleanup ();
+      if len < lmax then List.iter (fun a -> visit (a :: seq) (len + 1)) alpha
+    end in
   let pre = List.map parse_rtok prefix in
   visit (List.rev pre) (List.length pre);
   Printf.sprintf "%d %d %d" !nodes !h1 !h2
